@@ -92,6 +92,7 @@ pxgstrf_super_bnd_dfs(
               if ( marker[invp_rep] != found ) {
 		  marker[invp_rep] = found;
 		  parent[krep] = EMPTY;
+		  SLU_MT_VEV(VE_DFS_VISIT, pnum, krep, &ispruned[krep]);
 		  if ( ispruned[krep] ) {
 		      if ( SINGLETON( supno[krep] ) )
 			  xdfs = xlsub_end[krep];
@@ -131,6 +132,7 @@ pxgstrf_super_bnd_dfs(
 				      krep = chrep;/* Go deeper down G(L^t) */
 				      xdfs = xlsub[krep];     
 				      maxdfs = xprune[krep];
+				      SLU_MT_VEV(VE_DFS_VISIT, pnum, krep, &ispruned[krep]);
 				      if ( ispruned[krep] ) {
 					  if ( SINGLETON( supno[krep] ) )
 					      xdfs = xlsub_end[krep];
